@@ -129,7 +129,7 @@ func idxDesc(v ssa.Value) string {
 	if k, ok := v.(*ssa.Const); ok && k.Value != nil {
 		return k.Value.ExactString()
 	}
-	return valueDesc2(v)
+	return ""
 }
 
 // lenLowerBound: on the way to ins, len(coll) is known to be >= the returned bound (−1 if unknown),
@@ -254,19 +254,19 @@ func rangeIndexOver(idx ssa.Value, coll ssa.Value) bool {
 
 // audited index expressions: safe for a reason outside the function (cross-function length facts, library contracts).
 var auditedIndex = map[string]string{
-	"conversions.(*ConversionSupplySet).Payouts SortTxIDS()[0]": "top is non-empty when there is at least one request (the max loop appends at least the first maximum)",
-	"fat2.(*PTicker).UnmarshalJSON data[0]": "encoding/json never hands an empty token to UnmarshalJSON; the slice is only indexed at 0",
+	"conversions.ConversionSupplySet.Payouts SortTxIDS()[0]": "top is non-empty when there is at least one request (the max loop appends at least the first maximum)",
+	"fat2.PTicker.UnmarshalJSON (parameter []byte #0)[0]": "encoding/json never hands an empty token to UnmarshalJSON; the slice is only indexed at 0",
 	"fat2.PTicker.String fat2.validPTickerStrings[expr]": "guarded by 0 < t < PTickerMax; the table has PTickerMax-1 entries (C20/ticker-table)",
-	"node.(*Pegnetd).ApplyFactoidBlock factom.FactoidTransaction.FCTInputs[0]": "a registered burn passed len(FCTInputs) == 1 and len(ECOutputs) == 1",
-	"node.(*Pegnetd).GetPegNetRateAverages$2 ratesOverPeriod[ratesOverPeriod.key][1:]": "the shift runs under len(x) >= AveragePeriod >= 1",
-	"node.(*Pegnetd).GetPegNetRateAverages$2 ratesOverPeriod[ratesOverPeriod.key][:expr]": "the shift runs under len(x) >= AveragePeriod >= 1",
-	"node.(*Pegnetd).SnapshotPayouts bal.Balances[i]": "bal.Balances has PTickerMax+1 slots (allocated in SelectSnapshotBalances), i < PTickerMax",
-	"node.(*Pegnetd).SnapshotPayouts$1 list[i]": "sort.Slice passes indices inside the slice it was given",
-	"node.(*Pegnetd).SnapshotPayouts$1 list[j]": "sort.Slice passes indices inside the slice it was given",
-	"node.(*Pegnetd).recordPegnetRequests fat2.TransactionBatch.Transactions[node.pegRequest.TxIndex]": "TxIndex was recorded while enumerating the same batch's transactions",
-	"node.multiFetch$1 eblock.Entries[expr]": "indices are produced by ranging over the same Entries slice",
-	"pegnet.(*Pegnet).InsertFCTBurn burn.FCTInputs[0]": "only called with registered burns (exactly one FCT input)",
-	"pegnet.(*Pegnet).SetTransactionHistoryPEGConvertedRequestAmount txbatch.Transactions[index]": "index is the position recorded while enumerating the same batch",
+	"node.Pegnetd.ApplyFactoidBlock factom.FactoidTransaction.FCTInputs[0]": "a registered burn passed len(FCTInputs) == 1 and len(ECOutputs) == 1",
+	"node.Pegnetd.GetPegNetRateAverages$2 ratesOverPeriod[ratesOverPeriod.key][1:]": "the shift runs under len(x) >= AveragePeriod >= 1",
+	"node.Pegnetd.GetPegNetRateAverages$2 ratesOverPeriod[ratesOverPeriod.key][:expr]": "the shift runs under len(x) >= AveragePeriod >= 1",
+	"node.Pegnetd.SnapshotPayouts bal.Balances[i]": "bal.Balances has PTickerMax+1 slots (allocated in SelectSnapshotBalances), i < PTickerMax",
+	"node.Pegnetd.SnapshotPayouts$1 list[i]": "sort.Slice passes indices inside the slice it was given",
+	"node.Pegnetd.SnapshotPayouts$1 list[j]": "sort.Slice passes indices inside the slice it was given",
+	"node.Pegnetd.recordPegnetRequests fat2.TransactionBatch.Transactions[]": "TxIndex was recorded while enumerating the same batch's transactions",
+	"node.multiFetch$1 factom.EBlock.Entries[]": "indices are produced by ranging over the same Entries slice",
+	"pegnet.Pegnet.InsertFCTBurn factom.FactoidTransaction.FCTInputs[0]": "only called with registered burns (exactly one FCT input)",
+	"pegnet.Pegnet.SetTransactionHistoryPEGConvertedRequestAmount fat2.TransactionBatch.Transactions[]": "index is the position recorded while enumerating the same batch",
 }
 
 func propC08(c *Ctx, r *Report) {
@@ -337,8 +337,18 @@ func propC08(c *Ctx, r *Report) {
 				r.okNT("C08/bounds", cons, c.ipos(s.ins), how)
 				continue
 			}
-			if why, ok := auditedIndex[key]; ok {
+			audited := false
+			for _, on := range c.ownerNames(f) {
+				if why, ok := auditedIndex[on+" "+s.desc]; ok && !audited {
+					r.audited("C08/bounds", cons, c.ipos(s.ins), why)
+					audited = true
+				}
+			}
+			if why, ok := auditedIndex[key]; ok && !audited {
 				r.audited("C08/bounds", cons, c.ipos(s.ins), why)
+				audited = true
+			}
+			if audited {
 				continue
 			}
 			cd, what := chainDerived(s.coll)
@@ -362,11 +372,11 @@ func propC08(c *Ctx, r *Report) {
 	// ---- panics: explicit panic, type assertions, divisions ----
 	r.rule("C08/panic-sites", 2, "explicit panics, unchecked assertions and data-dependent divisions on the block path")
 	auditedPanic := map[string]string{
-		"node.(*Pegnetd).GetPegNetRateAverages$2 panic":   "database error while reading rates: the property assumes a healthy database (abort, I5)",
-		"node.(*Pegnetd).ApplyTransactionBatchesInHolding assert": "GetPegNetRateAverages always returns map[fat2.PTicker]uint64",
-		"node.(*Pegnetd).GetPegNetRateAverages div":       "guarded: entries with fewer than AverageRequired samples are skipped, so len(v) > 0",
-		"node.(*Pegnetd).DBlockSync div":                  "iterations >= 1 after the increment above it",
-		"node.(*Pegnetd).RateAveragesAt assert":           "GetPegNetRateAverages always returns map[fat2.PTicker]uint64",
+		"node.Pegnetd.GetPegNetRateAverages panic":   "database error while reading rates: the property assumes a healthy database (abort, I5)",
+		"node.Pegnetd.ApplyTransactionBatchesInHolding assert": "GetPegNetRateAverages always returns map[fat2.PTicker]uint64",
+		"node.Pegnetd.GetPegNetRateAverages div":       "guarded: entries with fewer than AverageRequired samples are skipped, so len(v) > 0",
+		"node.Pegnetd.DBlockSync div":                  "iterations >= 1 after the increment above it",
+		"node.Pegnetd.RateAveragesAt assert":           "GetPegNetRateAverages always returns map[fat2.PTicker]uint64",
 	}
 	for _, f := range sortedFuncs(c.RSync) {
 		ordn := newOrdinals()
@@ -394,9 +404,11 @@ func propC08(c *Ctx, r *Report) {
 			if n := ordn.next(key); n > 1 {
 				cons = fmt.Sprintf("%s %s", key, ord(n))
 			}
-			if why, ok := auditedPanic[key]; ok {
-				r.audited("C08/panic-sites", cons, c.ipos(ins), why)
-				return
+			for _, on := range c.ownerNames(f) {
+				if why, ok := auditedPanic[on+" "+kind]; ok {
+					r.audited("C08/panic-sites", cons, c.ipos(ins), why)
+					return
+				}
 			}
 			cd := false
 			for _, op := range ins.Operands(nil) {
@@ -417,23 +429,24 @@ func propC08(c *Ctx, r *Report) {
 	// ---- wedges: unique-key inserts ----
 	r.rule("C08/unique-inserts", 10, "plain INSERTs into uniquely keyed tables on the block path")
 	auditedInsert := map[string]string{
-		"pegnet.(*Pegnet).insertRate pn_rate":                             "key (height, token): one call per asset name of the winning record, names unique in the graders' asset lists; height applied once (C02-R5)",
-		"pegnet.(*Pegnet).InsertGradeBlock pn_grade":                      "key height: a height is applied once (C02-R5)",
-		"pegnet.(*Pegnet).InsertGradeBlock pn_winners":                    "key (height, position): positions are assigned 1..n by the grader",
+		"pegnet.Pegnet.InsertRates pn_rate":                            "as for insertRate (the same statement issued by InsertRates itself)",
+		"pegnet.Pegnet.insertRate pn_rate":                             "key (height, token): one call per asset name of the winning record, names unique in the graders' asset lists; height applied once (C02-R5)",
+		"pegnet.Pegnet.InsertGradeBlock pn_grade":                      "key height: a height is applied once (C02-R5)",
+		"pegnet.Pegnet.InsertGradeBlock pn_winners":                    "key (height, position): positions are assigned 1..n by the grader",
 		"pegnet.Pegnet.InsertBankAmount pn_bank":                          "key height: once per rated block",
 		"pegnet.Pegnet.markHeightSyncedVersion pn_sync_version":           "key height: must fail when a height is applied twice (C02-R5)",
-		"pegnet.(*Pegnet).InsertCoinbase pn_history_txbatch":              "key (winning OPR entry hash, height): the grader keeps one record per entry hash",
-		"pegnet.(*Pegnet).InsertCoinbase pn_history_transaction":          "key (winning OPR entry hash, 0)",
-		"pegnet.(*Pegnet).InsertStaking100Coinbase pn_history_txbatch":    "key (winning SPR entry hash, height)",
-		"pegnet.(*Pegnet).InsertStaking100Coinbase pn_history_transaction": "key (winning SPR entry hash, 0)",
-		"pegnet.(*Pegnet).InsertFCTBurn pn_history_txbatch":               "key (factoid transaction id, height): unique per factoid block",
-		"pegnet.(*Pegnet).InsertFCTBurn pn_history_transaction":           "key (factoid transaction id, 0)",
-		"pegnet.(*Pegnet).InsertStakingCoinbase pn_history_txbatch":       "mock txid = zero-padded height: one snapshot per height",
-		"pegnet.(*Pegnet).InsertStakingCoinbase pn_history_transaction":   "key (mock txid, list index): indices distinct",
-		"pegnet.(*Pegnet).InsertDeveloperRewardCoinbase pn_history_txbatch": "mock txid = developer ordinal + height",
-		"pegnet.(*Pegnet).InsertDeveloperRewardCoinbase pn_history_transaction": "key (mock txid, ordinal mod 10): one row per mock txid",
-		"pegnet.(*Pegnet).InsertZeroingCoinbase pn_history_txbatch":       "one-time, height 260118 only: mock txids height-j; a collision with the staking txid of snapshot 260064 (j=54) is possible and its error is dropped by the caller (recorded under C10)",
-		"pegnet.(*Pegnet).InsertZeroingCoinbase pn_history_transaction":   "see above",
+		"pegnet.Pegnet.InsertCoinbase pn_history_txbatch":              "key (winning OPR entry hash, height): the grader keeps one record per entry hash",
+		"pegnet.Pegnet.InsertCoinbase pn_history_transaction":          "key (winning OPR entry hash, 0)",
+		"pegnet.Pegnet.InsertStaking100Coinbase pn_history_txbatch":    "key (winning SPR entry hash, height)",
+		"pegnet.Pegnet.InsertStaking100Coinbase pn_history_transaction": "key (winning SPR entry hash, 0)",
+		"pegnet.Pegnet.InsertFCTBurn pn_history_txbatch":               "key (factoid transaction id, height): unique per factoid block",
+		"pegnet.Pegnet.InsertFCTBurn pn_history_transaction":           "key (factoid transaction id, 0)",
+		"pegnet.Pegnet.InsertStakingCoinbase pn_history_txbatch":       "mock txid = zero-padded height: one snapshot per height",
+		"pegnet.Pegnet.InsertStakingCoinbase pn_history_transaction":   "key (mock txid, list index): indices distinct",
+		"pegnet.Pegnet.InsertDeveloperRewardCoinbase pn_history_txbatch": "mock txid = developer ordinal + height",
+		"pegnet.Pegnet.InsertDeveloperRewardCoinbase pn_history_transaction": "key (mock txid, ordinal mod 10): one row per mock txid",
+		"pegnet.Pegnet.InsertZeroingCoinbase pn_history_txbatch":       "one-time, height 260118 only: mock txids height-j; a collision with the staking txid of snapshot 260064 (j=54) is possible and its error is dropped by the caller (recorded under C10)",
+		"pegnet.Pegnet.InsertZeroingCoinbase pn_history_transaction":   "see above",
 	}
 	ordn := newOrdinals()
 	for _, st := range cat.stmtsIn(c.RBlock) {
@@ -528,6 +541,11 @@ func propC08(c *Ctx, r *Report) {
 	}
 
 	// ---- wedges: a conversion verdict must not become a block failure ----
+	// amounts above MaxInt64 never reach a statement: database/sql refuses uint64 parameters with the high bit set,
+	// which would fail the block for good (shared with C20)
+	r.rule("C08/amount-range", 2, "input amounts are bounded by MaxInt64 for every kind of transaction")
+	ruleInputAmountBound(c, r, "C08/amount-range")
+	ruleU64Params(c, r, "C08/uint64-sql-params", c.RSync, 5)
 	r.rule("C08/convert-verdicts", 2, "a Convert error that is propagated was ruled out by an identical, dropped pre-check")
 	convertVerdicts(c, r, "C08/convert-verdicts")
 
@@ -589,7 +607,7 @@ func propC08(c *Ctx, r *Report) {
 	// immediate executor: sentinels it can receive are tolerated
 	atb := c.fn("node.Pegnetd.applyTransactionBatch")
 	{
-		sc := &Scenario{Params: map[string]AVal{"rates": nilVal, "averages": nilVal}, Calls: map[string]AVal{"fat2.(*Transaction).IsConversion": cBool(false)}, MaxDepth: 0}
+		sc := &Scenario{Params: map[string]AVal{"type:map[fat2.PTicker]uint64#0": nilVal, "type:map[fat2.PTicker]uint64#1": nilVal}, Calls: map[string]AVal{"fat2.Transaction.IsConversion": cBool(false)}, MaxDepth: 0}
 		st := newSCCP(c, sc).run(atb, nil, 0)
 		r.Scen++
 		var sent []string
@@ -621,11 +639,7 @@ func convertVerdicts(c *Ctx, r *Report, rule string) {
 	argKey := func(ci ssa.CallInstruction) string {
 		var ks []string
 		for _, a := range ci.Common().Args {
-			k := typePath(unwrapConv(a))
-			if k == "" {
-				k = valuePath(unwrapConv(a))
-			}
-			ks = append(ks, k)
+			ks = append(ks, stablePath(unwrapConv(a), 0)) // fields by declaring type, parameters by type and position
 		}
 		return strings.Join(ks, ",")
 	}
@@ -701,4 +715,462 @@ func convertVerdicts(c *Ctx, r *Report, rule string) {
 	if n == 0 {
 		r.ok(rule, "no propagated Convert error on the batch path", "-", "")
 	}
+}
+
+// ruleU64Params enumerates every uint64-typed value bound as a SQL parameter on the block path and classifies
+// where it comes from. database/sql rejects a uint64 with the high bit set, so an unbounded chain-derived value
+// here is a statement that fails on every retry.
+func ruleU64Params(c *Ctx, r *Report, rule string, scope map[*ssa.Function]bool, floor int) {
+	r.rule(rule, floor, "uint64 SQL parameters on the block path are widened 32-bit values, validated amounts or non-negative int64 results")
+	ordn := newOrdinals()
+	nsites := 0
+	u64c.c = c
+	for _, f := range sortedFuncs(scope) {
+		for _, ci := range callsOf(f) {
+			cc := ci.Common()
+			var mname string
+			if cc.IsInvoke() {
+				mname = cc.Method.Name()
+			} else if sc := cc.StaticCallee(); sc != nil {
+				mname = sc.Name()
+			}
+			switch mname {
+			case "Exec", "Query", "QueryRow", "ExecContext", "QueryContext", "QueryRowContext":
+			default:
+				continue
+			}
+			if cls, _ := recvClass(cc); cls == "" {
+				continue
+			}
+			nsites++
+			vals, resolved := sqlParamValues(cc)
+			if !resolved {
+				r.undecided(rule, fname(f)+" parameter list", c.ipos(ci), "the variadic parameter slice is not built at the call site")
+				continue
+			}
+			for _, a := range vals {
+				b, ok := a.Type().Underlying().(*types.Basic)
+				if !ok || (b.Kind() != types.Uint64 && b.Kind() != types.Uint) {
+					continue
+				}
+				for _, lf := range u64Leaves(a) {
+					key := fmt.Sprintf("%s binds %s", stmtLabel(c, ci), lf.desc)
+					cons := fmt.Sprintf("%s %s", key, ord(ordn.next(key)))
+					if lf.ok {
+						r.ok(rule, cons, c.ipos(ci), lf.desc)
+					} else if why, ok := u64Audited[lf.desc]; ok {
+						r.audited(rule, cons, c.ipos(ci), why)
+					} else {
+						r.viol(rule, cons, c.ipos(ci), "a uint64 that can have the high bit set ("+lf.desc+") is bound as a SQL parameter: database/sql refuses such a value (\"uint64 values with high bit set are not supported\"), so the statement fails on every attempt")
+					}
+				}
+			}
+		}
+	}
+	r.Extra["sql_param_sites_scanned"] = nsites
+}
+
+// sqlParamValues returns the values packed into the variadic ...interface{} argument of a database/sql call.
+func sqlParamValues(cc *ssa.CallCommon) ([]ssa.Value, bool) {
+	if len(cc.Args) == 0 {
+		return nil, true
+	}
+	last := cc.Args[len(cc.Args)-1]
+	if _, ok := last.Type().Underlying().(*types.Slice); !ok {
+		return nil, true
+	}
+	if k, ok := last.(*ssa.Const); ok && k.Value == nil {
+		return nil, true // no parameters
+	}
+	sl, ok := last.(*ssa.Slice)
+	if !ok {
+		return nil, false
+	}
+	al, ok := sl.X.(*ssa.Alloc)
+	if !ok || al.Referrers() == nil {
+		return nil, false
+	}
+	var out []ssa.Value
+	for _, rf := range *al.Referrers() {
+		ia, ok := rf.(*ssa.IndexAddr)
+		if !ok || ia.Referrers() == nil {
+			continue
+		}
+		for _, r2 := range *ia.Referrers() {
+			if st, ok := r2.(*ssa.Store); ok && st.Addr == ia {
+				v := st.Val
+				if mi, ok := v.(*ssa.MakeInterface); ok {
+					v = mi.X
+				}
+				out = append(out, v)
+			}
+		}
+	}
+	return out, true
+}
+
+// u64Leaves lists where a uint64 can come from; ok means the source cannot have the high bit set. Parameters are
+// followed to every static call site on the block path, phis to every edge (bounded depth).
+type u64Leaf struct {
+	desc string
+	ok   bool
+}
+
+func u64Leaves(v ssa.Value) []u64Leaf {
+	m := map[string]bool{}
+	u64c.walk(v, 0, map[ssa.Value]bool{}, m)
+	var keys []string
+	for k := range m {
+		keys = append(keys, k)
+	}
+	sort.Strings(keys)
+	var out []u64Leaf
+	allOK := true
+	for _, k := range keys {
+		if !m[k] {
+			allOK = false
+		}
+	}
+	if allOK {
+		return []u64Leaf{{strings.Join(keys, "; "), true}}
+	}
+	for _, k := range keys {
+		if !m[k] {
+			out = append(out, u64Leaf{k, false})
+		}
+	}
+	return out
+}
+
+type u64Classifier struct{ c *Ctx }
+
+var u64c = &u64Classifier{}
+
+// fields that validation bounds: the input amount (<= MaxInt64, rule C08/amount-range) and the transfer amounts
+// (their exact sum equals the input, rule C03-R7).
+var u64BoundedFields = map[string]string{
+	"fat2.TypedAddressAmountTuple.Amount": "input amount, <= MaxInt64 by TransactionBatch.Validate (C08/amount-range)",
+	"fat2.AddressAmountTuple.Amount":      "transfer amount, <= the input by Transaction.Validate (C03-R7)",
+}
+
+// values read back from an INTEGER column: SQLite integers are signed 64-bit and the columns carry CHECK(>= 0)
+var u64DatabaseReads = map[string]bool{"SelectBalances": true, "SelectBalance": true, "SelectPendingBalance": true, "SelectBankEntry": true, "SelectSnapshotBalances": true}
+
+func (u *u64Classifier) walk(v ssa.Value, depth int, seen map[ssa.Value]bool, out map[string]bool) {
+	leaf := func(d string, ok bool) {
+		if prev, had := out[d]; had {
+			ok = ok && prev
+		}
+		out[d] = ok
+	}
+	if depth > 8 {
+		leaf("expression deeper than the analysis bound", false)
+		return
+	}
+	if seen[v] {
+		return
+	}
+	seen[v] = true
+	defer delete(seen, v)
+	if why, ok := u64BoundedFields[typePath(v)]; ok {
+		leaf(why, true)
+		return
+	}
+	switch x := v.(type) {
+	case *ssa.Const:
+		leaf("constant", true)
+		return
+	case *ssa.Convert:
+		if b, ok := x.X.Type().Underlying().(*types.Basic); ok {
+			switch b.Kind() {
+			case types.Uint32, types.Uint16, types.Uint8:
+				leaf("widened "+b.Name(), true)
+				return
+			case types.Int, types.Int64, types.Int32:
+				if nonNegInt(x.X) {
+					leaf("non-negative "+b.Name()+" (index, length or counter)", true)
+				} else {
+					leaf("converted "+b.Name()+": "+describeVal(x.X), false)
+				}
+				return
+			}
+		}
+		u.walk(x.X, depth+1, seen, out)
+		return
+	case *ssa.ChangeType:
+		u.walk(x.X, depth+1, seen, out)
+		return
+	case *ssa.Phi:
+		for _, e := range x.Edges {
+			u.walk(e, depth+1, seen, out)
+		}
+		return
+	case *ssa.BinOp:
+		switch x.Op {
+		case token.QUO, token.REM, token.SHR, token.AND:
+			u.walk(x.X, depth+1, seen, out) // not larger than the dividend
+			return
+		}
+		leaf("arithmetic: "+describeVal(x), false)
+		return
+	case *ssa.Call:
+		if u64DatabaseReads[shortCallee(x.Common())] {
+			leaf("value read from an INTEGER column (signed 64-bit, CHECK >= 0)", true)
+			return
+		}
+		leaf("result of "+shortCallee(x.Common()), false)
+		return
+	case *ssa.Extract:
+		if call, ok := x.Tuple.(*ssa.Call); ok {
+			if u64DatabaseReads[shortCallee(call.Common())] {
+				leaf("value read from an INTEGER column (signed 64-bit, CHECK >= 0)", true)
+				return
+			}
+			leaf(fmt.Sprintf("result #%d of %s", x.Index, shortCallee(call.Common())), false)
+			return
+		}
+		if nx, ok := x.Tuple.(*ssa.Next); ok && x.Index == 2 {
+			if rg, ok := nx.Iter.(*ssa.Range); ok {
+				u.element(rg.X, depth, seen, out)
+				return
+			}
+		}
+	case *ssa.UnOp:
+		if x.Op == token.MUL {
+			if ia, ok := x.X.(*ssa.IndexAddr); ok {
+				u.element(ia.X, depth, seen, out)
+				return
+			}
+		}
+		if x.Op == token.SUB {
+			leaf("negated unsigned value (two's complement: >= 2^63 for every operand in [1, 2^63])", false)
+			return
+		}
+	case *ssa.Lookup:
+		u.element(x.X, depth, seen, out)
+		return
+	case *ssa.Index:
+		u.element(x.X, depth, seen, out)
+		return
+	case *ssa.Parameter:
+		f := x.Parent()
+		idx := -1
+		for i, p := range f.Params {
+			if p == x {
+				idx = i
+			}
+		}
+		n := 0
+		for _, e := range u.c.callSitesOf(f) {
+			if !u.c.RSync[e.Caller] {
+				continue // API/CLI callers are outside the block path
+			}
+			ci, ok := e.Site.(ssa.CallInstruction)
+			if !ok || idx < 0 || idx >= len(ci.Common().Args) {
+				continue
+			}
+			n++
+			u.walk(ci.Common().Args[idx], depth+1, seen, out)
+		}
+		if n == 0 {
+			leaf("parameter "+x.Name()+" of "+fname(f)+" (no static call site on the block path)", false)
+		}
+		return
+	}
+	if d := describeVal(v); dbReadPath.MatchString(d) {
+		leaf("value read from an INTEGER column (signed 64-bit, CHECK >= 0)", true)
+	} else {
+		leaf(d, false)
+	}
+}
+
+var dbReadPath = regexp.MustCompile(`^(SelectBalances|SelectBalance|SelectPendingBalance|SelectSnapshotBalances)\(\)`)
+
+// element: an element of a container value; containers obtained from database reads are bounded.
+func (u *u64Classifier) element(cv ssa.Value, depth int, seen map[ssa.Value]bool, out map[string]bool) {
+	root := cv
+	for {
+		switch y := root.(type) {
+		case *ssa.Lookup:
+			root = y.X
+			continue
+		case *ssa.UnOp:
+			if ia, ok := y.X.(*ssa.IndexAddr); ok && y.Op == token.MUL {
+				root = ia.X
+				continue
+			}
+		case *ssa.Slice:
+			root = y.X
+			continue
+		}
+		break
+	}
+	if ex, ok := root.(*ssa.Extract); ok {
+		if call, ok := ex.Tuple.(*ssa.Call); ok && u64DatabaseReads[shortCallee(call.Common())] {
+			out["value read from an INTEGER column (signed 64-bit, CHECK >= 0)"] = out["value read from an INTEGER column (signed 64-bit, CHECK >= 0)"] || true
+			return
+		}
+	}
+	if call, ok := root.(*ssa.Call); ok && u64DatabaseReads[shortCallee(call.Common())] {
+		out["value read from an INTEGER column (signed 64-bit, CHECK >= 0)"] = true
+		return
+	}
+	d := "element of " + describeVal(root)
+	if prev, had := out[d]; !had || prev {
+		out[d] = false
+	}
+}
+
+// describeVal names a value stably (type path, else value path, else the defining call), never by position.
+func describeVal(v ssa.Value) string {
+	if p := typePath(v); p != "" {
+		return p
+	}
+	if p := valuePath(v); p != "" {
+		return p
+	}
+	switch x := v.(type) {
+	case *ssa.BinOp:
+		return describeVal(x.X) + " " + x.Op.String() + " " + describeVal(x.Y)
+	case *ssa.Convert:
+		return describeVal(x.X)
+	case *ssa.Call:
+		return shortCallee(x.Common()) + "()"
+	case *ssa.Const:
+		return x.String()
+	case *ssa.Parameter:
+		return "parameter " + x.Name() + " of " + fname(x.Parent())
+	}
+	if ins, ok := v.(ssa.Instruction); ok {
+		return v.Type().String() + " value of " + strings.SplitN(ins.String(), "(", 2)[0]
+	}
+	return v.Type().String() + " value"
+}
+
+func dedupStrings(a []string) []string {
+	var out []string
+	for i, s := range a {
+		if i == 0 || s != a[i-1] {
+			out = append(out, s)
+		}
+	}
+	return out
+}
+
+// nonNegInt: a range index, a len()/cap() result, or a counter that starts at a non-negative constant and only grows.
+func nonNegInt(v ssa.Value) bool {
+	switch x := v.(type) {
+	case *ssa.Const:
+		return x.Value != nil && x.Int64() >= 0
+	case *ssa.Extract:
+		if _, ok := x.Tuple.(*ssa.Next); ok && x.Index == 1 {
+			return true
+		}
+	case *ssa.Call:
+		if b, ok := x.Call.Value.(*ssa.Builtin); ok && (b.Name() == "len" || b.Name() == "cap") {
+			return true
+		}
+	case *ssa.BinOp:
+		if x.Op == token.ADD {
+			// rotated range loop: i = phi(-1, i+1) + 1
+			if ph, ok := x.X.(*ssa.Phi); ok {
+				if k, ok := x.Y.(*ssa.Const); ok && k.Value != nil && k.Int64() == 1 {
+					idiom := true
+					for _, e := range ph.Edges {
+						if kc, ok := e.(*ssa.Const); ok && kc.Value != nil && kc.Int64() >= -1 {
+							continue
+						}
+						if e == ssa.Value(x) {
+							continue
+						}
+						idiom = false
+					}
+					if idiom {
+						return true
+					}
+				}
+			}
+		}
+		if x.Op == token.ADD || x.Op == token.MUL || x.Op == token.QUO || x.Op == token.REM {
+			return nonNegInt(x.X) && nonNegInt(x.Y)
+		}
+	case *ssa.Parameter:
+		f := x.Parent()
+		n := 0
+		for i, p := range f.Params {
+			if p != x {
+				continue
+			}
+			for _, e := range u64c.c.callSitesOf(f) {
+				ci, ok := e.Site.(ssa.CallInstruction)
+				if !ok || i >= len(ci.Common().Args) {
+					return false
+				}
+				if a := ci.Common().Args[i]; a != x && !nonNegInt(a) {
+					return false
+				}
+				n++
+			}
+		}
+		return n > 0
+	case *ssa.Phi:
+		for _, e := range x.Edges {
+			if k, ok := e.(*ssa.Const); ok && k.Value != nil && k.Int64() >= 0 {
+				continue
+			}
+			if bo, ok := e.(*ssa.BinOp); ok && bo.Op == token.ADD && bo.X == x {
+				if k, ok := bo.Y.(*ssa.Const); ok && k.Value != nil && k.Int64() >= 0 {
+					continue
+				}
+			}
+			return false
+		}
+		return true
+	}
+	return false
+}
+
+func typePathOr(v ssa.Value) string {
+	if p := typePath(v); p != "" {
+		return p
+	}
+	return valuePath(v)
+}
+
+// audited sources: each is bounded by construction, not by a test the analysis can see; one reason per source.
+var u64Audited = map[string]string{
+	"converted int64: Convert()#0":                     "conversions.Convert returns a non-negative int64: its inputs are a validated non-negative amount and unsigned rates, and the result passed IsInt64",
+	"converted int64: Refund()":                        "conversions.Refund = input - Convert(yield back to the input asset); the yield never exceeds the floor-converted request, so the refund is in [0, input]",
+	"converted int64: Payout()":                        "grader payout table: compile-time constants of the grading module",
+	"element of Payouts()":                             "ConversionSupplySet.Payouts: each value is at most the request it was computed from (a converted int64)",
+	"factom.FactoidTransactionIO.Amount":               "factoid amounts come from an fblock validated by factomd; the whole FCT supply is far below 2^63 factoshis",
+	"element of payouts":                               "staking payouts: shares of the constant per-block staking reward",
+	"arithmetic: node.MintSupply.Amount * 100000000:uint64": "one-time mint table: compile-time amounts times 1e8, all far below 2^63",
+	"arithmetic: 2e+09:float64 * node.DevReward.DevRewardPct":                "developer reward: constant times a table percentage <= 1",
+	"arithmetic: 2e+09:float64 * node.DevReward.DevRewardPct * 144:float64": "developer reward: constant times a table percentage <= 1 times the snapshot rate",
+}
+
+// stmtLabel names a statement by what it does ("INSERT pn_rate"), not by the function it sits in, so that a
+// finding follows the statement when a helper is inlined or split off. Prepared statements are named through
+// the Prepare call that produced the receiver.
+func stmtLabel(c *Ctx, ci ssa.CallInstruction) string {
+	cat := buildSQLCat(c)
+	site := ci
+	if cls, rv := recvClass(ci.Common()); cls == "Stmt" {
+		backSlice(rv, func(v ssa.Value) bool {
+			if call, ok := v.(*ssa.Call); ok {
+				if n := shortCallee(call.Common()); n == "Prepare" || n == "PrepareContext" {
+					site = call
+					return false
+				}
+			}
+			return true
+		})
+	}
+	for _, st := range cat.Stmts {
+		if st.Site == site {
+			return st.Verb + " " + st.Table
+		}
+	}
+	return "statement in " + fname(ci.Parent())
 }
